@@ -1,0 +1,30 @@
+//go:build verif
+
+package core
+
+// Contracts for cluster.go and the topology part of eventloop.go, read by the rcvc verifier in /verif
+// (comment-only; adds no code).
+
+//@ use strs reply
+
+//@ define slotsok(n) = forall i int :: 0 <= i && i < len(n.Slots) ==> 0 <= n.Slots[i].Start && n.Slots[i].Start < 16384 && 0 <= n.Slots[i].End && n.Slots[i].End < 16384
+
+//@ func ClusterNode.parseSlot
+//@   props C14
+//@   flags pure
+//@   ensures[range] result2 == nil ==> 0 <= result0 && result0 < 16384 && 0 <= result1 && result1 < 16384
+
+//@ func ClusterNodes.loopClusterNodes
+//@   props C14
+//@   requires EngineGlobal != nil
+//@   assume at call IndexByte#0 :: value_unfold(msg, 0) && value_ok(msg, 0) && value_end(msg, 0) == len(msg)
+//@   assume at call updateClusterNodes#0 :: msg[0] == '$' && dec(hdr_slice(msg, 0), len(hdr_slice(msg, 0))) >= 1
+//@   ensures[forever] false
+//@   loop 0
+//@     invariant EngineGlobal != nil
+
+//@ func ClusterNodes.updateClusterNodes
+//@   props C14
+//@   ensures[sticky] old(c.serverChanged) ==> c.serverChanged
+//@   ensures[unusable] result != nil ==> c.serverChanged == old(c.serverChanged) && c.Replicasets == old(c.Replicasets) && c.lastServerNames == old(c.lastServerNames)
+//@       && heap(hashmap.HashMap.view) == old(heap(hashmap.HashMap.view))
